@@ -13,6 +13,7 @@ CONSTANTS
   SummaryStateless = TRUE
   WeightsRebuilt = TRUE
   FeedCopied = TRUE
+  OutlierColumnsOwn = TRUE
 INVARIANT CallOK
 INVARIANT AbstractFunctional
 CONSTRAINT Finished
